@@ -908,6 +908,9 @@ class Interp:
         lam = node.args[2]
         if not isinstance(lam, ast.Lambda):
             raise Unsupported("forall/exists needs a lambda")
+        clo, chi = concrete_int(as_int(lo)), concrete_int(as_int(hi))
+        if clo is not None and chi is not None and chi <= clo:
+            return VBool(nm == "forall")          # empty range: the body is not even evaluated
         vname = lam.args.args[0].arg
         bname = self.ctx.fresh_name("q_" + vname)
         bound = z3.Int(bname)
